@@ -88,8 +88,11 @@ func (m *Model) Select(f *FSpec, qrels []RelT) []EID {
 
 // Exp is the planned effect of an operation.
 type Exp struct {
-	Op         *Op
-	Panic      bool // the call must panic and change nothing
+	Op    *Op
+	Panic bool // the call must panic and change nothing
+	// Either: whether the call panics is not specified in itself (calls guarded only by the debug build); it is
+	// recorded in the digest chain and compared across build configurations (C20). No state change is expected.
+	Either     bool
 	NewE       []EID
 	NewState   []MEnt
 	Sel        []EID        // batch selection
@@ -385,6 +388,9 @@ func (m *Model) Plan(op *Op) *Exp {
 		// handled in Commit
 	case KMisuse:
 		x.Panic = true
+		if c := MisuseTable[op.Slot].Class; c == "debugguard" || c == "debugguardN" {
+			x.Either = true
+		}
 	default:
 		panic(fmt.Sprintf("plan: unknown kind %d", op.K))
 	}
